@@ -116,7 +116,7 @@ Spec == Init /\ [][Next]_vars
 \* Records (built by harness/internal/props/c18 from oracle.ParsePDF + oracle/pdffont.go):
 \*  D (document): [kind ("ttf" | "cff"), subset, reuse, upm, hv, fonts, spans, unreadable]
 \*  F (one PDF font object): [enc, subtype, dw, w : <<[t |-> "list", c, ws] | [t |-> "range", c, c2, wd]>>, tuc : <<[c, u]>>, tur : <<[lo, hi, u]>>,
-\*      hasmap, map : <<gid>>, ng (glyphs in the embedded program; -1 unreadable), w1 (vertical displacement: DW2[2], default -1000)]
+\*      hasmap, map : <<gid>>, ng (glyphs in the embedded program; -1 unreadable), csok, w1 (vertical displacement: DW2[2], default -1000)]
 \*  E (one shown glyph, in content stream order): [f (index of the font object), span (index of its span), code, adj (TJ number after the glyph, 0 if none),
 \*      g, xadv, yadv, vert, cluster : <<code points>>, rev (code point the source cmap gives for g, 0 if none), adv (source advance of g),
 \*      src, eid, emap : glyph signatures [n, h, adv, x0, y0, x1, y1] of the source glyph g and of the embedded glyphs number code / map[code]]
@@ -166,12 +166,12 @@ CffFeature(D) == D.kind = "cff" /\ (~D.subset \/ D.reuse > 0)
 \* deviation signatures of one shown glyph.  D: [font, subset, reuse, upm, hv], sub: state of the subsetter machine before the call
 GlyphDiag(D, F, E, sub) ==
        (IF E.code = GetCode(sub, E.g) THEN {} ELSE {Hv(D, "subsetter-code-unstable:" \o Feat(D))})
-  \cup (IF EmbGid(F, E) >= 0 /\ EmbGid(F, E) < F.ng THEN {} ELSE {Hv(D, "code-undefined:" \o Feat(D))})
+  \cup (IF F.ng < 0 \/ (EmbGid(F, E) >= 0 /\ EmbGid(F, E) < F.ng) THEN {} ELSE {Hv(D, "code-undefined:" \o Feat(D))})   \* ng < 0: program unreadable, reported once per document
   \cup (IF WidthOf(F, E.code) = Round1000(E.adv, D.upm) THEN {} ELSE {Hv(D, "width-wrong:" \o Feat(D))})
   \cup (IF Recovers(ToUnicode(F, E.code), E.cluster) THEN {}
         ELSE IF ToUnicode(F, E.code) = <<0>> /\ E.rev = 0 THEN {"tounicode-zero-for-unmapped-glyph"}      \* glyph reached by substitution only
         ELSE {Hv(D, "tounicode-wrong:" \o Feat(D))})
-  \cup (IF EmbGid(F, E) < 0 \/ EmbGid(F, E) >= F.ng \/ EmbSig(F, E) = E.src THEN {}
+  \cup (IF F.ng < 0 \/ EmbGid(F, E) < 0 \/ EmbGid(F, E) >= F.ng \/ EmbSig(F, E) = E.src THEN {}
         ELSE IF CffFeature(D) THEN {"glyph-differs:" \o Feat(D)} ELSE {Hv(D, "glyph-differs:" \o Feat(D))})
   \cup (IF E.vert THEN (IF Abs((F.w1 - E.adj) * D.upm - 1000 * E.yadv) <= 2 * D.upm THEN {} ELSE {Hv(D, "pen-advance-wrong:vertical:" \o Feat(D))})
         ELSE (IF Abs((WidthOf(F, E.code) - E.adj) * D.upm - 1000 * E.xadv) <= 2 * D.upm THEN {} ELSE {Hv(D, "pen-advance-wrong:" \o Feat(D))}))
@@ -197,8 +197,14 @@ SpanAgreeDiag(D, pen) ==
         \cup (IF Abs(1000 * D.spans[i].um - pen[i] * D.spans[i].tf) <= (2 * D.spans[i].n + 2) * D.spans[i].tf + Abs(pen[i]) THEN {}
               ELSE {"pdf-advance-differs-from-span-width"})
         : i \in 1..Len(D.spans)}
+\* an embedded font program the (trusted) parser cannot read: narrow signature when the independent structural reader of
+\* the driver finds the Top DICT's CharStrings offset not pointing at an INDEX (F.csok = 0)
+ProgramDiag(D, F) == IF F.ng >= 0 THEN {}
+                     ELSE IF F.csok = 0 THEN {"embedded-cff-charstrings-offset-wrong:" \o Feat(D)}
+                     ELSE {"embedded-font-unreadable:" \o Feat(D)}
 DocDiag(D) ==
      UNION {IF RangesWellFormed(D.fonts[i]) THEN {} ELSE {"tounicode-range-crosses-byte"} : i \in 1..Len(D.fonts)}
+  \cup UNION {ProgramDiag(D, D.fonts[i]) : i \in 1..Len(D.fonts)}
   \cup UNION {IF D.spans[i].w = D.spans[i].sum THEN {} ELSE {"span-width-differs"} : i \in 1..Len(D.spans)}
   \cup (IF D.unreadable = 0 THEN {} ELSE {"font-unreadable"})
 
